@@ -695,8 +695,9 @@ class NUMERIC(FieldType):
     def unprepare_number(self, x):
         dc = self.decimal_places
         if dc:
-            s = str(x)
-            x = Decimal(s[:-dc] + "." + s[-dc:])
+            # Shift the decimal point (slicing the digit string breaks for
+            # values with fewer than decimal_places digits and for negatives)
+            x = Decimal(x).scaleb(-dc)
         return x
 
     def to_column_value(self, x):
